@@ -2310,3 +2310,12 @@ M("C09-trim-blanks-tests-one-before", "C09", F_PP,
 M("C17-named-file-from-system-directory-not-own", "C17", F_PP,
   "    if (_explicit_files.count(filename)) {\n      source = CPPFile::S_local;", "    if (source != CPPFile::S_system && _explicit_files.count(filename)) {\n      source = CPPFile::S_local;",
   expect="R17.10|handle_include_directive|")
+
+# ---- R04.3 tightened (S10-C04: the typedef arm of in_ignoreinvolved compares a name instead of recursing)
+M("C04-ignoreinvolved-typedef-arm-compares-name", "C04", F_IB,
+  "      return in_ignoreinvolved(tdef->_type);", "      return in_ignoreinvolved(tdef->_type->get_simple_name());",
+  expect="R04.3|in_ignoreinvolved|ST_typedef")
+
+# ---- R07.17 (S10-C07: `or` lexed as bitwise or)
+M("C07-or-is-bitwise", "C07", F_PP, "  {\"or\", OROR},", "  {\"or\", '|'},", expect="R07.17|keywords|or|primary-token")
+M("C07-not-eq-is-not", "C07", F_PP, "  {\"not_eq\", NECOMPARE},", "  {\"not_eq\", '!'},", expect="R07.17|keywords|not_eq|primary-token")
